@@ -147,3 +147,11 @@ Theorem C02_packed_score_is_source :
 Proof. exact packed_score_is_source. Qed.
 Print Assumptions C02_packed_score_is_source.
 
+
+Theorem C02_mol_trimer_is_source :
+  forall (NN : Num) (fsin fcos : carrier NN -> carrier NN) (pi_ radius angle distance : carrier
+    NN), gen_mol_trimer NN fsin fcos pi_ radius angle distance = mol_trimer NN pi_ fsin fcos
+    radius angle distance.
+Proof. exact mol_trimer_is_source. Qed.
+Print Assumptions C02_mol_trimer_is_source.
+
